@@ -82,6 +82,7 @@ type task struct {
 	failedAt int
 	fn       func(t *task)
 	abort    bool
+	pending  bool // has asked for its lock and not got it yet
 	pan      *fetchPanic
 	prio     int
 	// task-local results
@@ -166,16 +167,20 @@ func e1BeforeLock(mu *sync.RWMutex, write bool, site string) {
 			if ok = mu.TryLock(); ok {
 				mu.Unlock()
 			}
-		} else {
+		} else if !S.writerPending(mu, t) {
+			// Go's RWMutex makes new readers wait once a writer is blocked in Lock(): a reader that
+			// re-enters RLock behind a pending writer deadlocks, and so it must here
 			if ok = mu.TryRLock(); ok {
 				mu.RUnlock()
 			}
 		}
 		if ok {
 			t.failedAt = -1
+			t.pending = false
 			return
 		}
 		t.failedAt = S.epoch
+		t.pending = true
 	}
 }
 
@@ -198,6 +203,18 @@ func e1Add(n ipld.Node) (bool, error) {
 
 //go:norace
 func (s *sched) now() int { s.clock++; return s.clock }
+
+// writerPending: another task has called Lock() on mu and is still waiting for it.
+//
+//go:norace
+func (s *sched) writerPending(mu *sync.RWMutex, self *task) bool {
+	for _, t := range s.tasks {
+		if t != self && t.state == stWantLock && t.w && t.mu == mu && t.pending {
+			return true
+		}
+	}
+	return false
+}
 
 //go:norace
 func (s *sched) lockName(mu *sync.RWMutex) string {
